@@ -10,7 +10,7 @@ SC=${SEEDCHECK_BASE:-/tmp/lrv-seedcheck}
 wt=$SC/$name
 mkdir -p $SC
 git -C /repo worktree remove --force $wt >/dev/null 2>&1; rm -rf $wt
-git -C /repo worktree add --detach $wt HEAD >/dev/null 2>&1 || { echo "SEED $dir: worktree failed"; exit 2; }
+git -C /repo worktree add --detach $wt ${SEED_REPO_REV:-HEAD} >/dev/null 2>&1 || { echo "SEED $dir: worktree failed"; exit 2; }
 export CARGO_NET_OFFLINE=true CARGO_TARGET_DIR=$SC/target
 res="SEED $dir:"
 if git -C $wt apply $dir/patch.diff 2>$SC/apply.err; then res="$res applies"; else echo "$res PATCH DOES NOT APPLY: $(head -3 $SC/apply.err)"; git -C /repo worktree remove --force $wt; exit 1; fi
